@@ -117,7 +117,7 @@ def run_shard(campaign, shard, nshards, seed, tier):
     part = Part()
     rng = random.Random('%s/%s' % (seed, campaign))      # same scenarios in every shard, positions sharded
     quick = tier != 'thorough'
-    nscn = 14 if quick else 500
+    nscn = 48 if quick else 600
     idx = 0
     for _ in range(nscn):
         A, B, msgs, sfcap = gen_scn(rng)
